@@ -29,7 +29,7 @@ def run(P):
                 for e in out:
                     f.write(json.dumps(e) + "\n")
             r = P.validate_chunk(p, "Trace_Abs", wd)
-            props = {v["prop"] for v in r["viols"]}
+            props = {q for v in r["viols"] for q in v["prop"].split("+")}
             if not (props & expect):
                 print("selftest: corrupted trace '%s' was NOT rejected as %s (got %s)" % (name, expect, props))
                 return False
